@@ -98,6 +98,16 @@ func (q *QuietTail) HandleInactive(ctx netty.InactiveContext, ex netty.Exception
 	ctx.HandleInactive(ex)
 }
 
+// FirstInactiveTick is the logical time the inactive event reached the end of the pipeline (0 = never).
+func (q *QuietTail) FirstInactiveTick() uint64 {
+	q.mu.Lock()
+	defer q.mu.Unlock()
+	if len(q.InactiveTick) == 0 {
+		return 0
+	}
+	return q.InactiveTick[0]
+}
+
 // Snapshot returns copies of what was recorded.
 func (q *QuietTail) Snapshot() (exc []error, inact []error) {
 	q.mu.Lock()
